@@ -554,6 +554,143 @@ def check_jump(ctx, label, rot_seed, c, B, cs, family, g):
     return fails
 
 
+# ----------------------------------------------------------------------------- translator: index glue of calc_h/j/k_mat -> lean/QGen/C18.lean
+import re as _re
+
+
+def _method_lines(cls, name):
+    import ast
+    fn = [f for f in cls.body if isinstance(f, ast.FunctionDef) and f.name == name]
+    if len(fn) != 1:
+        raise ValueError(f"translator: EffectiveLindbladian.{name} not found")
+    body = [st for st in fn[0].body if not (isinstance(st, ast.Expr) and isinstance(st.value, ast.Constant))]
+    return body
+
+
+def _expect(st, text, where):
+    import ast
+    got = ast.unparse(st)
+    if got != text:
+        raise ValueError(f"translator: {where}: expected `{text}`, source has `{got}`")
+
+
+def _slice_start(it, enumerate_required, where):
+    """`basis`, `basis[N:]`, `enumerate(basis)`, `enumerate(basis[N:])` -> N"""
+    m = _re.fullmatch(r"enumerate\((basis(?:\[(\d+):\])?)\)" if enumerate_required else r"(basis(?:\[(\d+):\])?)", it)
+    if not m:
+        raise ValueError(f"translator: {where}: unsupported loop range `{it}`")
+    return int(m.group(2) or 0)
+
+
+_PRELUDE_SRC = ["basis = self.composite_system.basis()", "comp_basis = self.composite_system.comp_basis()",
+                "lindbladian_cb = convert_hs(self.hs, basis, comp_basis)"]
+
+
+def _extract_hj(cls, name, var):
+    """skeleton of calc_h_mat / calc_j_mat -> dict(start, neg, conj, imag, den, delta_at)"""
+    import ast
+    body = _method_lines(cls, name)
+    for st, text in zip(body[:3], _PRELUDE_SRC):
+        _expect(st, text, name)
+    _expect(body[3], "identity = np.eye(self.dim)", name)
+    _expect(body[4], f"tmp_{var}_mat = np.zeros((self.dim, self.dim), dtype=np.complex128)", name)
+    loop = body[5]
+    if not isinstance(loop, ast.For) or loop.orelse or len(body) != 7:
+        raise ValueError(f"translator: {name}: expected one for-loop followed by the return")
+    _expect(body[6], f"return tmp_{var}_mat", name)
+    tgt = ast.unparse(loop.target)
+    if tgt == "B_alpha":
+        start, enum = _slice_start(ast.unparse(loop.iter), False, name), False
+    elif tgt == "(alpha, B_alpha)":
+        start, enum = _slice_start(ast.unparse(loop.iter), True, name), True
+    else:
+        raise ValueError(f"translator: {name}: unsupported loop target `{tgt}`")
+    lines = [ast.unparse(st) for st in loop.body]
+    m = _re.fullmatch(r"trace = np\.trace\(lindbladian_cb @ \(mutil\.kron\(B_alpha, identity\) ([+-]) mutil\.kron\(identity, B_alpha(\.conj\(\))?\)\)\)", lines[0])
+    if not m:
+        raise ValueError(f"translator: {name}: unsupported trace statement `{lines[0]}`")
+    neg, conj = m.group(1) == "-", bool(m.group(2))
+    rest = lines[1:]
+    delta_at = None
+    if rest and rest[0].startswith("delta"):
+        md = _re.fullmatch(r"delta = 1 if alpha == (\d+) else 0", rest[0])
+        if not md or not enum:
+            raise ValueError(f"translator: {name}: unsupported delta statement `{rest[0]}`")
+        delta_at = int(md.group(1))
+        rest = rest[1:]
+    if len(rest) != 2:
+        raise ValueError(f"translator: {name}: unexpected loop body {rest}")
+    mc = _re.fullmatch(rf"{var}_alpha = (1j|1) / \((\d+) \* self\.dim( \* \(1 \+ delta\))?\) \* trace", rest[0])
+    if not mc or bool(mc.group(3)) != (delta_at is not None):
+        raise ValueError(f"translator: {name}: unsupported coefficient `{rest[0]}`")
+    if rest[1] != f"tmp_{var}_mat += {var}_alpha * B_alpha":
+        raise ValueError(f"translator: {name}: unsupported accumulation `{rest[1]}`")
+    return {"start": start, "neg": neg, "conj": conj, "imag": mc.group(1) == "1j", "den": int(mc.group(2)), "delta_at": delta_at}
+
+
+def _extract_k(cls):
+    import ast
+    body = _method_lines(cls, "calc_k_mat")
+    for st, text in zip(body[:3], _PRELUDE_SRC):
+        _expect(st, text, "calc_k_mat")
+    _expect(body[3], "tmp_k_mat = np.zeros((self.dim ** 2 - 1, self.dim ** 2 - 1), dtype=np.complex128)", "calc_k_mat")
+    loop = body[4]
+    _expect(body[5], "return tmp_k_mat", "calc_k_mat")
+    if not (isinstance(loop, ast.For) and ast.unparse(loop.target) == "(alpha, B_alpha)" and len(loop.body) == 1
+            and isinstance(loop.body[0], ast.For) and ast.unparse(loop.body[0].target) == "(beta, B_beta)" and len(loop.body[0].body) == 1):
+        raise ValueError("translator: calc_k_mat: expected two nested enumerate loops with one assignment")
+    r0 = _slice_start(ast.unparse(loop.iter), True, "calc_k_mat")
+    r1 = _slice_start(ast.unparse(loop.body[0].iter), True, "calc_k_mat")
+    m = _re.fullmatch(r"tmp_k_mat\[alpha, beta\] = np\.trace\(lindbladian_cb @ mutil\.kron\(B_alpha, B_beta(\.conj\(\))?\)\)", ast.unparse(loop.body[0].body[0]))
+    if not m:
+        raise ValueError("translator: calc_k_mat: unsupported entry statement `" + ast.unparse(loop.body[0].body[0]) + "`")
+    if (r0, r1) != (1, 1):
+        raise ValueError(f"translator: calc_k_mat: loops over basis[{r0}:] x basis[{r1}:] do not fit the (dim^2 - 1)^2 result")
+    return {"row": r0, "col": r1, "conj": bool(m.group(1))}
+
+
+def translate(ctx):
+    """regenerates lean/QGen/C18.lean (loop ranges, delta index, signs, conjugations and coefficient constants of
+    calc_h_mat / calc_j_mat / calc_k_mat) from the source; raises on anything outside the skeletons above"""
+    import ast, os
+    from common import REPO, LEAN
+    tree = ast.parse(open(os.path.join(REPO, "quara", "objects", "effective_lindbladian.py")).read())
+    cls = [n for n in tree.body if isinstance(n, ast.ClassDef) and n.name == "EffectiveLindbladian"]
+    if len(cls) != 1:
+        raise ValueError("translator: class EffectiveLindbladian not found")
+    h, j, k = _extract_hj(cls[0], "calc_h_mat", "h"), _extract_hj(cls[0], "calc_j_mat", "j"), _extract_k(cls[0])
+    b = lambda x: "true" if x else "false"     # noqa: E731
+    o = lambda x: "none" if x is None else f"some {x}"     # noqa: E731
+    text = f'''/-! GENERATED by harness/c18.py:translate from quara/objects/effective_lindbladian.py (Python `ast`) on every run — do not edit.
+Index glue of `calc_h_mat`, `calc_j_mat`, `calc_k_mat`: slice start of the loops over the basis, the sign between the two
+Kronecker terms, whether the second factor is conjugated, numerator / denominator of the coefficient, position of `delta`. -/
+namespace QGen.C18
+def hLoopStart : Nat := {h["start"]}
+def hNegSecond : Bool := {b(h["neg"])}
+def hConjSecond : Bool := {b(h["conj"])}
+def hNumImag : Bool := {b(h["imag"])}
+def hDen : Nat := {h["den"]}
+def hDeltaAt : Option Nat := {o(h["delta_at"])}
+def jLoopStart : Nat := {j["start"]}
+def jNegSecond : Bool := {b(j["neg"])}
+def jConjSecond : Bool := {b(j["conj"])}
+def jNumImag : Bool := {b(j["imag"])}
+def jDen : Nat := {j["den"]}
+def jDeltaAt : Option Nat := {o(j["delta_at"])}
+def kLoopStartRow : Nat := {k["row"]}
+def kLoopStartCol : Nat := {k["col"]}
+def kConjSecond : Bool := {b(k["conj"])}
+end QGen.C18
+'''
+    path = os.path.join(LEAN, "QGen", "C18.lean")
+    if not os.path.exists(path) or open(path).read() != text:
+        open(path, "w").write(text)
+    return []
+
+
+LEAN_EXTRA_TARGETS = ("QGen.C18",)
+
+
 PARTIAL = [
     {"theorem": "exp_tp / exp_series_tp", "missing": "trace preservation of exp(L) is proved (Mathlib NormedSpace.exp and every partial sum); complete positivity of exp(L) for PSD K (Lindblad's theorem) is not formalised - to_gate's CP is checked per run on the implementation"},
     {"theorem": "parts_sum", "missing": "proved for generators of the form rebuild(H,J,K) (Hermitian H, J; any K); surjectivity of rebuild onto Hermiticity-preserving generators is not formalised - the oracle evaluates the clause on generic real hs as well"},
